@@ -4,6 +4,7 @@ import (
 	"fmt"
 	"go/token"
 	"go/types"
+	"hash/fnv"
 	"os"
 	"sort"
 	"strings"
@@ -47,6 +48,8 @@ type POEvent struct {
 	C      *smt.Term
 	Cut    bool
 	Stack  string
+	Inv    *smt.Term // must hold whenever the event executes (e.g. a select picks a valid alternative)
+	nOut   int
 }
 
 type POLoc struct {
@@ -54,6 +57,8 @@ type POLoc struct {
 	W        int // >0 bit-vector width, 0 Bool, -1 class-coded
 	Init     *smt.Term
 	Classes  []Value
+	Frags    []map[int]*Object // thread-local objects a class value points into (snapshot)
+	Used     []bool            // written (or initial) in the current pass
 	classIdx map[string]int
 	readSeen bool
 	IsChan   bool
@@ -110,6 +115,7 @@ type PO struct {
 	Notes    []string
 	Unsupp   []string
 	MaxSpawn int
+	MaxClasses int
 	SpinFns  map[string]bool
 	Verbose  bool
 }
@@ -118,7 +124,7 @@ const classW = 16
 
 func NewPO(e *Engine, r *Run, proMax int) *PO {
 	return &PO{Eng: e, R: r, byKey: map[string]*POThread{}, Locs: map[string]*POLoc{}, ProMax: proMax,
-		Written: map[string]bool{}, Accessed: map[string]map[int]bool{}, MaxSpawn: 3, Shared: map[string]bool{}, AtomicLocs: map[string]bool{}}
+		Written: map[string]bool{}, Accessed: map[string]map[int]bool{}, MaxSpawn: 3, MaxClasses: 6, Shared: map[string]bool{}, AtomicLocs: map[string]bool{}}
 }
 
 func locKey(p Ptr) string {
@@ -233,6 +239,8 @@ func (po *PO) loc(key string, init Value, name string) (*POLoc, error) {
 			return nil, unknownf("shared location %s holds a symbolic aggregate", key)
 		}
 		l.Classes = []Value{init}
+		l.Frags = []map[int]*Object{nil}
+		l.Used = []bool{true}
 		l.classIdx[k] = 0
 		l.Init = smt.BV(0, classW)
 	}
@@ -247,22 +255,110 @@ func (l *POLoc) sort() smt.Sort {
 	return smt.Sort(l.W)
 }
 
-// class returns the class index of a concrete value at this location, registering it.
-func (po *PO) class(l *POLoc, v Value) (*smt.Term, error) {
-	k, ok := vkey(v)
+// class returns the class index of a concrete value at this location, registering it. The
+// key is content-based (thread-local objects are named by visiting order and their contents
+// included), so it is stable across passes; the objects themselves travel with the class.
+func (po *PO) class(l *POLoc, st *State, v Value, prefix string) (*smt.Term, error) {
+	k, ok := st.valueKey(po.ProMax, v)
 	if !ok {
 		return nil, unknownf("symbolic aggregate written to shared location %s", l.Key)
 	}
+	k = prefix + k
 	if i, ok := l.classIdx[k]; ok {
+		l.Used[i] = true
 		return smt.BV(uint64(i), classW), nil
 	}
 	i := len(l.Classes)
-	l.Classes = append(l.Classes, v)
+	if i >= po.MaxClasses {
+		return nil, pathEnd{EndBound, fmt.Sprintf("more than %d distinct values at shared location %s", po.MaxClasses, l.Name)}
+	}
+	if prefix != "" {
+		l.Classes = append(l.Classes, chanFull{v})
+	} else {
+		l.Classes = append(l.Classes, v)
+	}
+	l.Frags = append(l.Frags, po.fragment(st, v))
+	l.Used = append(l.Used, true)
 	l.classIdx[k] = i
 	if l.readSeen {
 		po.rerun = true
 	}
 	return smt.BV(uint64(i), classW), nil
+}
+
+// fragment collects the thread-local objects reachable from v (deep snapshot).
+func (po *PO) fragment(st *State, v Value) map[int]*Object {
+	out := map[int]*Object{}
+	var visit func(v Value)
+	obj := func(id int) {
+		if id == 0 || id <= po.ProMax {
+			return
+		}
+		if _, ok := out[id]; ok {
+			return
+		}
+		o := st.Heap.Get(id)
+		if o == nil {
+			return
+		}
+		out[id] = o
+		if o.Kind == OVal {
+			visit(o.V)
+		}
+		for _, b := range o.Buf {
+			visit(b)
+		}
+	}
+	visit = func(v Value) {
+		switch x := v.(type) {
+		case Ptr:
+			obj(x.ID)
+		case Slice:
+			obj(x.ID)
+		case GSlice:
+			obj(x.ID)
+		case Str:
+			obj(x.ID)
+		case Chan:
+			obj(x.ID)
+		case Iface:
+			visit(x.V)
+		case Func:
+			for _, b := range x.Bind {
+				visit(b)
+			}
+		case Struct:
+			for _, f := range x.F {
+				visit(f)
+			}
+		case Array:
+			for _, f := range x.E {
+				visit(f)
+			}
+		case Tuple:
+			for _, f := range x.E {
+				visit(f)
+			}
+		case chanFull:
+			visit(x.v)
+		}
+	}
+	visit(v)
+	if len(out) == 0 {
+		return nil
+	}
+	return out
+}
+
+func (po *PO) importFrag(st *State, l *POLoc, k int) {
+	if k >= len(l.Frags) {
+		return
+	}
+	for id, o := range l.Frags[k] {
+		if st.Heap.Get(id) == nil {
+			st.Heap.Put(o)
+		}
+	}
 }
 
 func (po *PO) isPrologue(id int) bool { return id <= po.ProMax }
@@ -328,6 +424,25 @@ type mergedEnd struct{}
 // variables. Returns (event, merged).
 func (po *PO) atSite(st *State, pos token.Pos) (*POEvent, bool) {
 	key, slots := st.stateKey(po.ProMax)
+	// unrolling is counted per identical state key along the path (a revisit of the same key is
+	// one more iteration of whatever loop brought us back); this keeps the DAG acyclic
+	h := fnv.New64a()
+	h.Write([]byte(key))
+	hk := h.Sum64()
+	if st.SiteVisits == nil {
+		st.SiteVisits = map[uint64]int{}
+	}
+	st.SiteVisits[hk]++
+	vis := st.SiteVisits[hk]
+	if vis > po.R.LoopBound {
+		cut := po.newEvent(st, "cut", pos)
+		cut.Cut = true
+		cut.Stack = fmt.Sprintf("state revisited more than %d times at %s", po.R.LoopBound, st.pos(pos))
+		c := smt.And(st.PC...)
+		cut.Edges = append(cut.Edges, POEdge{From: st.POLast, Cond: c, PCond: c})
+		return cut, true
+	}
+	key = fmt.Sprintf("%s#v%d", key, vis)
 	th := po.cur
 	pc := smt.And(st.PC...)
 	if rec, ok := th.sites[key]; ok && len(rec.jv) == len(slots) {
@@ -340,6 +455,12 @@ func (po *PO) atSite(st *State, pos token.Pos) (*POEvent, bool) {
 	}
 	ev := po.newEvent(st, "site", pos)
 	ev.Stack = st.stack()
+	if f := os.Getenv("VERIF_POKEYDUMP"); f != "" && th.ID >= 5 {
+		if fh, err := os.OpenFile(f, os.O_APPEND|os.O_CREATE|os.O_WRONLY, 0o644); err == nil {
+			fmt.Fprintf(fh, "%s\n", key)
+			fh.Close()
+		}
+	}
 	jv := make([]*smt.Term, len(slots))
 	conds := []*smt.Term{pc}
 	for i, s := range slots {
@@ -479,6 +600,7 @@ func (po *PO) readValue(st *State, ev *POEvent, l *POLoc, rv *smt.Term) (Value, 
 		}
 	}
 	st.Assume(smt.Eq(rv, smt.BV(uint64(choice), classW)))
+	po.importFrag(st, l, choice)
 	return l.Classes[choice], nil
 }
 
@@ -557,7 +679,7 @@ func (po *PO) Store(st *State, p Ptr, v Value, atomicOp bool, pos token.Pos) (bo
 		a.Atomic = atomicOp
 		a.WG = smt.True
 		if l.W == -1 {
-			a.WV, err = po.class(l, v)
+			a.WV, err = po.class(l, st, v, "")
 			if err != nil {
 				return true, err
 			}
@@ -671,11 +793,13 @@ func (po *PO) chanLoc(st *State, c Chan) (*POLoc, error) {
 	}
 	l := &POLoc{Key: key, classIdx: map[string]int{}, W: -1, IsChan: true, Name: "chan@" + o.Site}
 	l.Classes = []Value{chanEmpty{}, chanClosed{}}
+	l.Frags = []map[int]*Object{nil, nil}
+	l.Used = []bool{true, true}
 	l.classIdx["empty"] = 0
 	l.classIdx["closed"] = 1
 	l.Init = smt.BV(0, classW)
 	if len(o.Buf) > 0 {
-		t, err := po.chanClass(l, o.Buf[0])
+		t, err := po.chanClass(l, st, o.Buf[0])
 		if err != nil {
 			return nil, err
 		}
@@ -685,22 +809,8 @@ func (po *PO) chanLoc(st *State, c Chan) (*POLoc, error) {
 	return l, nil
 }
 
-func (po *PO) chanClass(l *POLoc, v Value) (*smt.Term, error) {
-	k, ok := vkey(v)
-	if !ok {
-		return nil, unknownf("symbolic value sent on shared channel")
-	}
-	k = "full:" + k
-	if i, ok := l.classIdx[k]; ok {
-		return smt.BV(uint64(i), classW), nil
-	}
-	i := len(l.Classes)
-	l.Classes = append(l.Classes, chanFull{v})
-	l.classIdx[k] = i
-	if l.readSeen {
-		po.rerun = true
-	}
-	return smt.BV(uint64(i), classW), nil
+func (po *PO) chanClass(l *POLoc, st *State, v Value) (*smt.Term, error) {
+	return po.class(l, st, v, "full:")
 }
 
 var (
@@ -724,7 +834,7 @@ func (po *PO) Send(st *State, chv Value, v Value, pos token.Pos) (bool, error) {
 	if !had {
 		a.RV = smt.Var(fmt.Sprintf("rv!%d_%d", ev.ID, len(ev.Acc)), l.sort())
 		a.Atomic = true
-		wv, err := po.chanClass(l, v)
+		wv, err := po.chanClass(l, st, v)
 		if err != nil {
 			return true, err
 		}
@@ -773,6 +883,7 @@ func (po *PO) Recv(st *State, chv Value, t types.Type, commaOk bool, pos token.P
 		}
 	}
 	st.Assume(smt.Eq(a.RV, smt.BV(uint64(choice), classW)))
+	po.importFrag(st, l, choice)
 	et := t
 	var val Value
 	okv := smt.True
@@ -902,7 +1013,7 @@ func (po *PO) Select(st *State, r *Run, x *ssa.Select) (bool, error) {
 			anyReady = smt.Or(anyReady, ready[i])
 			sel := smt.Eq(chv, smt.BV(uint64(i), classW))
 			if ci.dir == types.SendOnly {
-				wv, err := po.chanClass(ci.l, r.get(st, x.States[i].Send))
+				wv, err := po.chanClass(ci.l, st, r.get(st, x.States[i].Send))
 				if err != nil {
 					return true, err
 				}
@@ -916,6 +1027,19 @@ func (po *PO) Select(st *State, r *Run, x *ssa.Select) (bool, error) {
 		if x.Blocking {
 			ev.Enable = anyReady
 		}
+		// the choice variable names a ready case (or the default when nothing is ready)
+		var valid []*smt.Term
+		for i := range cs {
+			valid = append(valid, smt.And(smt.Eq(chv, smt.BV(uint64(i), classW)), ready[i]))
+		}
+		if !x.Blocking {
+			none := smt.True
+			for i := range cs {
+				none = smt.And(none, smt.Not(ready[i]))
+			}
+			valid = append(valid, smt.And(smt.Eq(chv, smt.BV(uint64(0xffff), classW)), none))
+		}
+		ev.Inv = smt.Or(valid...)
 		f := st.top()
 		for k := 1; k < len(alts); k++ {
 			o := st.Fork()
@@ -963,6 +1087,7 @@ func (po *PO) Select(st *State, r *Run, x *ssa.Select) (bool, error) {
 		st.Assume(ready[al.ci])
 		if cs[al.ci].dir != types.SendOnly {
 			st.Assume(smt.Eq(cs[al.ci].a.RV, smt.BV(uint64(al.class), classW)))
+			po.importFrag(st, cs[al.ci].l, al.class)
 		}
 	} else {
 		// default: no case ready
@@ -1065,6 +1190,9 @@ func (po *PO) Explore() {
 			s.Hook = po
 			r.runPath(s)
 			np++
+			if po.Verbose && np%500 == 0 {
+				fmt.Fprintf(os.Stderr, "      .. thread %d %s: paths=%d events=%d pending=%d ends=%v\n", th.ID, th.Name, np, len(th.Events), len(r.work), r.Ends)
+			}
 		}
 		if po.Verbose {
 			fmt.Fprintf(os.Stderr, "    thread %d %s: paths=%d events=%d ends=%v\n", th.ID, th.Name, np, len(th.Events), r.Ends)
@@ -1075,7 +1203,11 @@ func (po *PO) Explore() {
 func (po *PO) onEnd(th *POThread, e End) {
 	st := e.St
 	switch e.Kind {
-	case EndReturn, EndMerged:
+	case EndMerged:
+		return
+	case EndReturn:
+		ev := po.newEvent(st, "end", token.NoPos)
+		ev.Edges = append(ev.Edges, POEdge{From: st.POLast, Cond: smt.And(st.PC...), PCond: smt.And(st.PC...)})
 		return
 	case EndPanic:
 		// uncaught panic of a thread: an assertion event unless the harness allowed it
@@ -1114,6 +1246,9 @@ func (po *PO) Reset(roots []*POThread) {
 	for _, l := range po.Locs {
 		l.Reads, l.Writes = nil, nil
 		l.readSeen = false
+		for i := range l.Used {
+			l.Used[i] = i == 0 || (l.IsChan && i == 1)
+		}
 	}
 	po.Threads = nil
 	po.byKey = map[string]*POThread{}
@@ -1204,4 +1339,15 @@ func (po *PO) AwaitRMW(st *State, p Ptr, en func(old *smt.Term) *smt.Term, f fun
 		}
 	}
 	return true, nil
+}
+
+
+func (po *PO) ClassSummary() string {
+	var sb strings.Builder
+	for _, l := range sortedLocs(po.Locs) {
+		if l.W == -1 && len(l.Classes) > 2 {
+			fmt.Fprintf(&sb, "%s:%d ", l.Name, len(l.Classes))
+		}
+	}
+	return sb.String()
 }
